@@ -99,6 +99,9 @@ func (e *Engine) Prelude() string {
 	for _, n := range e.structOrder {
 		b.WriteString(e.structDecls[n])
 	}
+	for _, q := range e.specs.SeqSorts {
+		b.WriteString(seqSortDecls(q))
+	}
 	for _, f := range e.specs.Funs {
 		fmt.Fprintf(&b, "(declare-fun %s (%s) %s)\n", f.Name, strings.Join(f.Args, " "), f.Ret)
 	}
@@ -419,4 +422,42 @@ func canonBound(t string) string {
 		m[s] = r
 		return r
 	})
+}
+
+// seqSortDecls: the theory of an abstract sequence sort N over element sort T.  seqOf!N(row, s) is the content of slice s in
+// the element heap row of its base object; sequences are equal exactly when they have the same length and the same elements
+// (extensionality is triggered by the marker seqext!N, which the spec builtin sameseq() and every pair of seqOf terms introduce).
+func seqSortDecls(q SeqSort) string {
+	n, t := q.Name, q.Elem
+	r := strings.NewReplacer("$N", n, "$T", t)
+	return r.Replace(`(declare-fun seqOf!$N ((Array Int $T) Slice) $N)
+(declare-fun seqlen!$N ($N) Int)
+(declare-fun seqat!$N ($N Int) $T)
+(declare-fun seqext!$N ($N $N) Bool)
+(declare-fun seqdiff!$N ($N $N) Int)
+(assert (forall ((r (Array Int $T)) (s Slice)) (! (= (seqlen!$N (seqOf!$N r s)) (ite (>= (slen s) 0) (slen s) 0)) :pattern ((seqOf!$N r s)))))
+(assert (forall ((q $N)) (! (>= (seqlen!$N q) 0) :pattern ((seqlen!$N q)))))
+(assert (forall ((r (Array Int $T)) (s Slice) (i Int)) (! (=> (and (<= 0 i) (< i (slen s))) (= (seqat!$N (seqOf!$N r s) i) (select r (sidx s i)))) :pattern ((seqOf!$N r s) (sidx s i)) :pattern ((seqat!$N (seqOf!$N r s) i)))))
+(assert (forall ((a $N) (b $N)) (! (= (seqext!$N a b) (= a b)) :pattern ((seqext!$N a b)))))
+(assert (forall ((a $N) (b $N)) (! (=> (and (= (seqlen!$N a) (seqlen!$N b)) (=> (and (<= 0 (seqdiff!$N a b)) (< (seqdiff!$N a b) (seqlen!$N a))) (= (seqat!$N a (seqdiff!$N a b)) (seqat!$N b (seqdiff!$N a b))))) (= a b)) :pattern ((seqext!$N a b)))))
+(assert (forall ((r1 (Array Int $T)) (s Slice) (r2 (Array Int $T)) (t Slice)) (! (= (seqext!$N (seqOf!$N r1 s) (seqOf!$N r2 t)) (= (seqOf!$N r1 s) (seqOf!$N r2 t))) :pattern ((seqOf!$N r1 s) (seqOf!$N r2 t)))))
+`)
+}
+
+func (e *Engine) seqSortFor(elem Sort) (SeqSort, bool) {
+	for _, q := range e.specs.SeqSorts {
+		if Sort(q.Elem) == elem {
+			return q, true
+		}
+	}
+	return SeqSort{}, false
+}
+
+func (e *Engine) seqSortNamed(n Sort) (SeqSort, bool) {
+	for _, q := range e.specs.SeqSorts {
+		if Sort(q.Name) == n {
+			return q, true
+		}
+	}
+	return SeqSort{}, false
 }
